@@ -60,7 +60,7 @@ Proof.
 Qed.
 
 Definition filter_ok3 (cs : list string) (r : list val) (e : expr) : Prop :=
-  filter_nulls_ok is_cmp_op cs r e = true /\ filter_nulls_ok is_logic_op cs r e = true /\ filter_nulls_ok is_minmax_op cs r e = true.
+  filter_nulls_ok is_cmp_op cs r e = true /\ filter_nulls_ok is_logic_op cs r e = true.
 Definition filter_agrees (e : expr) : Prop :=
   exists x, (forall ext, tr_expr ext e = Ok x) /\
             forall cs rs i, filter_ok3 cs (nth i rs []) e -> vrel (plx_at cs rs i x) (eval_expr fl_pandas cs (nth i rs []) e).
@@ -87,15 +87,15 @@ Proof.
       destruct (IHa Va) as [xa [Ta Ea]], (IHb Vb) as [xb [Tb Eb]].
       unfold is_logic_op in Lg. split_mem Lg; try discriminate.
       * exists (PAnd xa xb). split; [intros ext; rewrite tr_expr_op; cbn [tr_list]; rewrite Ta, Tb; reflexivity|].
-        intros cs rs i [G1 [G2 G3]]. cbn [filter_nulls_ok is_logic_op mem] in G1, G2, G3.
+        intros cs rs i [G1 G2]. cbn [filter_nulls_ok is_logic_op mem] in G1, G2.
         destruct (eq_dec "and" "and"); [|congruence].
-        apply andb_true_iff in G1, G2, G3. destruct G1 as [G1a G1b], G2 as [G2a G2b], G3 as [G3a G3b].
+        apply andb_true_iff in G1, G2. destruct G1 as [G1a G1b], G2 as [G2a G2b].
         rewrite eval_expr_op. cbn [map plx_at scalar_op f_logic3 fl_pandas].
         apply vrel_and; [apply Ea|apply Eb]; repeat split; assumption.
       * exists (POr xa xb). split; [intros ext; rewrite tr_expr_op; cbn [tr_list]; rewrite Ta, Tb; reflexivity|].
-        intros cs rs i [G1 [G2 G3]]. cbn [filter_nulls_ok is_logic_op mem] in G1, G2, G3.
+        intros cs rs i [G1 G2]. cbn [filter_nulls_ok is_logic_op mem] in G1, G2.
         destruct (eq_dec "or" "and"); [discriminate|]. destruct (eq_dec "or" "or"); [|congruence].
-        apply andb_true_iff in G1, G2, G3. destruct G1 as [G1a G1b], G2 as [G2a G2b], G3 as [G3a G3b].
+        apply andb_true_iff in G1, G2. destruct G1 as [G1a G1b], G2 as [G2a G2b].
         rewrite eval_expr_op. cbn [map plx_at scalar_op f_logic3 fl_pandas].
         apply vrel_or; [apply Ea|apply Eb]; repeat split; assumption.
     + destruct (is_cmp_op op && negb (eqb op "!=")) eqn:Cm.
@@ -103,13 +103,13 @@ Proof.
         destruct (tr_expr_sound a Va) as [xa [Ta Ea]], (tr_expr_sound b Vb) as [xb [Tb Eb]].
         apply andb_true_iff in Cm. destruct Cm as [Cm Ne]. unfold is_cmp_op in Cm. split_mem Cm; try discriminate; try (cbn in Ne; discriminate).
         all: eexists; split; [intros ext; rewrite tr_expr_op; cbn [tr_list]; rewrite Ta, Tb; cbn; reflexivity|];
-          intros cs rs i [G1 [G2 G3]]; cbn in G1, G2, G3;
-          apply andb_true_iff in G1, G2, G3; destruct G1 as [G1a G1b], G2 as [G2a G2b], G3 as [G3a G3b];
+          intros cs rs i [G1 G2]; cbn in G1, G2;
+          apply andb_true_iff in G1, G2; destruct G1 as [G1a G1b], G2 as [G2a G2b];
           rewrite eval_expr_op; cbn [map plx_at scalar_op];
           rewrite (Ea cs rs i), (Eb cs rs i) by (repeat split; assumption);
           apply vrel_cmp; discriminate.
-      * destruct (filter_agrees_plain _ V0) as [x [T E]]. exists x. split; [exact T|]. intros cs rs i [G1 [G2 G3]]. apply E.
-        cbn [filter_nulls_ok] in G1, G2, G3. rewrite Lg, Cm in G1, G2, G3. repeat split; assumption.
+      * destruct (filter_agrees_plain _ V0) as [x [T E]]. exists x. split; [exact T|]. intros cs rs i [G1 G2]. apply E.
+        cbn [filter_nulls_ok] in G1, G2. rewrite Lg, Cm in G1, G2. repeat split; assumption.
 Qed.
 
 Lemma select_rows_step_filter declared e t t2 :
